@@ -18,10 +18,10 @@ func init() { props["C06"] = runC06 }
 
 type c06Case struct {
 	op     string
-	shape  string                                          // encoding of Model.ResultType.shape (types as tree encodings)
-	params []types.Type                                    // parameter types of the enclosing function
-	build  func(b *ir.Block, p []*ir.Param) value.Value    // constructs the instruction through the public API
-	want   types.Type                                      // LLVM's rule, stated here independently
+	shape  string                                       // encoding of Model.ResultType.shape (types as tree encodings)
+	params []types.Type                                 // parameter types of the enclosing function
+	build  func(b *ir.Block, p []*ir.Param) value.Value // constructs the instruction through the public API
+	want   types.Type                                   // LLVM's rule, stated here independently
 	cls    string
 	text   func(p []*ir.Param) string // a fragment the printed instruction must contain: opcode, operand order, flags as constructed
 }
@@ -118,7 +118,9 @@ func c06Gen(r *rng, g *tyGen, u *universe) c06Case {
 		t, _ := maybeVec(r, e)
 		return c06Case{op: op, shape: "SameAsFirst " + encT(t), params: []types.Type{t, t}, want: t,
 			build: func(b *ir.Block, p []*ir.Param) value.Value { return c06Binary(b, op, p[0], p[1]) },
-			text:  func(p []*ir.Param) string { return fmt.Sprintf("= %s %s %s, %s", strings.ToLower(op), t, p[0].Ident(), p[1].Ident()) }}
+			text: func(p []*ir.Param) string {
+				return fmt.Sprintf("= %s %s %s, %s", strings.ToLower(op), t, p[0].Ident(), p[1].Ident())
+			}}
 	case 2:
 		t, _ := maybeVec(r, c06Floats(r))
 		return c06Case{op: "FNeg", shape: "SameAsFirst " + encT(t), params: []types.Type{t}, want: t,
@@ -140,7 +142,9 @@ func c06Gen(r *rng, g *tyGen, u *universe) c06Case {
 		pi := r.intn(len(ipreds))
 		return c06Case{op: "ICmp", shape: "ICmp " + encT(t), params: []types.Type{t, t}, want: sameShape(t, types.I1), cls: cls,
 			build: func(b *ir.Block, p []*ir.Param) value.Value { return b.NewICmp(ipreds[pi], p[1], p[0]) },
-			text:  func(p []*ir.Param) string { return fmt.Sprintf("= icmp %s %s %s, %s", ipnames[pi], t, p[1].Ident(), p[0].Ident()) }}
+			text: func(p []*ir.Param) string {
+				return fmt.Sprintf("= icmp %s %s %s, %s", ipnames[pi], t, p[1].Ident(), p[0].Ident())
+			}}
 	case 7:
 		t, sc := maybeVec(r, c06Floats(r))
 		cls := ""
@@ -152,7 +156,9 @@ func c06Gen(r *rng, g *tyGen, u *universe) c06Case {
 		pi := r.intn(len(fpreds))
 		return c06Case{op: "FCmp", shape: "FCmp " + encT(t), params: []types.Type{t, t}, want: sameShape(t, types.I1), cls: cls,
 			build: func(b *ir.Block, p []*ir.Param) value.Value { return b.NewFCmp(fpreds[pi], p[1], p[0]) },
-			text:  func(p []*ir.Param) string { return fmt.Sprintf("= fcmp %s %s %s, %s", fpnames[pi], t, p[1].Ident(), p[0].Ident()) }}
+			text: func(p []*ir.Param) string {
+				return fmt.Sprintf("= fcmp %s %s %s, %s", fpnames[pi], t, p[1].Ident(), p[0].Ident())
+			}}
 	case 8:
 		e := g.sized(2).build(u)
 		return c06Case{op: "Alloca", shape: "Alloca " + encT(e) + " 0", want: ptrTo(e, 0),
@@ -185,8 +191,12 @@ func c06Gen(r *rng, g *tyGen, u *universe) c06Case {
 		}
 		as := g.pickU(g.spaces)
 		return c06Case{op: "AtomicRMW", shape: "AtomicRMW " + encT(ptrTo(e, as)), params: []types.Type{ptrTo(e, as), e}, want: e,
-			build: func(b *ir.Block, p []*ir.Param) value.Value { return b.NewAtomicRMW(op, p[0], p[1], enum.AtomicOrderingRelease) },
-			text:  func(p []*ir.Param) string { return fmt.Sprintf("= atomicrmw %s %s %s, %s %s release", op, p[0].Type(), p[0].Ident(), e, p[1].Ident()) }}
+			build: func(b *ir.Block, p []*ir.Param) value.Value {
+				return b.NewAtomicRMW(op, p[0], p[1], enum.AtomicOrderingRelease)
+			},
+			text: func(p []*ir.Param) string {
+				return fmt.Sprintf("= atomicrmw %s %s %s, %s %s release", op, p[0].Type(), p[0].Ident(), e, p[1].Ident())
+			}}
 	case 12:
 		e := c06Ints(r)
 		v := vecOf(uint64(1+r.intn(8)), r.chance(25), e)
@@ -197,7 +207,9 @@ func c06Gen(r *rng, g *tyGen, u *universe) c06Case {
 		v := vecOf(uint64(1+r.intn(8)), r.chance(25), e)
 		return c06Case{op: "InsertElement", shape: "InsertElement " + encT(v), params: []types.Type{v, e, types.I32}, want: v,
 			build: func(b *ir.Block, p []*ir.Param) value.Value { return b.NewInsertElement(p[0], p[1], p[2]) },
-			text:  func(p []*ir.Param) string { return fmt.Sprintf("= insertelement %s %s, %s %s, i32 %s", v, p[0].Ident(), e, p[1].Ident(), p[2].Ident()) }}
+			text: func(p []*ir.Param) string {
+				return fmt.Sprintf("= insertelement %s %s, %s %s, i32 %s", v, p[0].Ident(), e, p[1].Ident(), p[2].Ident())
+			}}
 	case 14:
 		e := c06Ints(r)
 		sc := r.chance(25)
@@ -276,7 +288,9 @@ func c06Gen(r *rng, g *tyGen, u *universe) c06Case {
 		}
 		return c06Case{op: "Select", shape: "SameAsFirst " + encT(t), params: []types.Type{c, t, t}, want: t,
 			build: func(b *ir.Block, p []*ir.Param) value.Value { return b.NewSelect(p[0], p[2], p[1]) },
-			text:  func(p []*ir.Param) string { return fmt.Sprintf("= select %s %s, %s %s, %s %s", c, p[0].Ident(), t, p[2].Ident(), t, p[1].Ident()) }}
+			text: func(p []*ir.Param) string {
+				return fmt.Sprintf("= select %s %s, %s %s, %s %s", c, p[0].Ident(), t, p[2].Ident(), t, p[1].Ident())
+			}}
 	case 18: // call: direct, through a function pointer, variadic
 		ret := g.sized(2).build(u)
 		if r.chance(30) {
@@ -304,7 +318,11 @@ func c06Gen(r *rng, g *tyGen, u *universe) c06Case {
 	case 19:
 		t := g.sized(2).build(u)
 		return c06Case{op: "Freeze", shape: "SameAsFirst " + encT(t), params: []types.Type{t}, want: t,
-			build: func(b *ir.Block, p []*ir.Param) value.Value { i := ir.NewInstFreeze(p[0]); b.Insts = append(b.Insts, i); return i }}
+			build: func(b *ir.Block, p []*ir.Param) value.Value {
+				i := ir.NewInstFreeze(p[0])
+				b.Insts = append(b.Insts, i)
+				return i
+			}}
 	case 20:
 		t := g.sized(1).build(u)
 		return c06Case{op: "VAArg", shape: "Explicit " + encT(t), params: []types.Type{ptrTo(types.I8, 0)}, want: t,
@@ -441,7 +459,9 @@ func c06Conv(r *rng) c06Case {
 	}
 	return c06Case{op: cv.op, shape: "Convert " + encT(from) + " " + encT(to), params: []types.Type{from}, want: to,
 		build: func(b *ir.Block, p []*ir.Param) value.Value { return cv.mk(b, p[0], to) },
-		text:  func(p []*ir.Param) string { return fmt.Sprintf("= %s %s %s to %s", strings.ToLower(cv.op), from, p[0].Ident(), to) }}
+		text: func(p []*ir.Param) string {
+			return fmt.Sprintf("= %s %s %s to %s", strings.ToLower(cv.op), from, p[0].Ident(), to)
+		}}
 }
 
 func runC06(c *config) {
